@@ -2,10 +2,12 @@
 (* Program space for the header-value part of C07: side x header x context *)
 (* x stem (all class strings of length < StemLen with ext = 0, all of      *)
 (* length = StemLen with ext = Ext): together all class strings of length  *)
-(* <= StemLen + Ext, each exactly once.                                    *)
+(* <= StemLen + Ext, each exactly once; plus the long structured values:   *)
+(* side x header x context x shape, each over the sequence of lengths      *)
+(* KeyLens (base64 text) or ListLens (everything else).                    *)
 EXTENDS WSHsFuzz, Json
 
-CONSTANTS Sides, StemLen, ExtServer, ExtClient
+CONSTANTS Sides, StemLen, ExtServer, ExtClient, KeyLens, ListLens
 
 VARIABLES prog, pc
 RECURSIVE Strs(_)
@@ -13,10 +15,25 @@ Strs(n) == IF n = 0 THEN { << >> } ELSE { Append(s, c) : s \in Strs(n - 1), c \i
 
 ExtOf(side) == IF side = "server" THEN ExtServer ELSE ExtClient
 
-Progs ==
-  UNION { UNION { { [side |-> sd, header |-> h, ctx |-> cx, stem |-> s, ext |-> IF Len(s) = StemLen THEN ExtOf(sd) ELSE 0] :
+(* length sequences (a cfg file cannot hold tuples) *)
+KeyLensQuick == << 0, 1, 4, 20, 22, 23, 24, 25, 28, 32, 36, 40, 44, 48, 64, 88, 1024 >>
+ListLensQuick == << 36, 1024, 4096 >>
+KeyLensThorough == << 0, 1, 2, 3, 4, 8, 16, 20, 21, 22, 23, 24, 25, 26, 27, 28, 32, 33, 34, 35, 36, 37, 40, 44, 48, 64, 88, 1024, 4096, 65536 >>
+ListLensThorough == << 36, 125, 1024, 4096, 65536, 1048576 >>
+
+LongProgs ==
+  UNION { UNION { { [kind |-> "long", side |-> sd, header |-> h, ctx |-> cx, stem |-> << >>, ext |-> 0, shape |-> sh,
+                     lens |-> IF sh = "b64" THEN KeyLens ELSE ListLens] :
+                      cx \in CtxsOf(h), sh \in ShapesOf(h) } :
+                  h \in (IF sd = "server" THEN ServerHeaders ELSE ClientHeaders) } : sd \in Sides }
+
+EnumProgs ==
+  UNION { UNION { { [kind |-> "enum", side |-> sd, header |-> h, ctx |-> cx, stem |-> s, ext |-> IF Len(s) = StemLen THEN ExtOf(sd) ELSE 0,
+                     shape |-> "", lens |-> << >>] :
                       cx \in CtxsOf(h), s \in UNION { Strs(k) : k \in 0..StemLen } } :
                   h \in (IF sd = "server" THEN ServerHeaders ELSE ClientHeaders) } : sd \in Sides }
+
+Progs == EnumProgs \cup LongProgs
 
 Init == prog \in Progs /\ pc = 1
 (* the model's behaviour: one batch whose every presentation ends normally or with an error *)
@@ -25,8 +42,14 @@ Spec == Init /\ [][Next]_<< prog, pc >>
 
 Emit == pc = 1 => PrintT(<< "PROG", ToJson(prog) >>)
 
-CanonBatch(p) == [n |-> 3 * UpToCount(p.ext), normal |-> 0, errors |-> 3 * UpToCount(p.ext)]
+CanonBatch(p) ==
+  IF p.kind = "long" THEN [n |-> LongCount(p), normal |-> 0, errors |-> LongCount(p)]
+  ELSE [n |-> 3 * UpToCount(p.ext), normal |-> 0, errors |-> 3 * UpToCount(p.ext)]
 InvBatch == pc = 2 => BatchAllowed(prog, CanonBatch(prog))
 (* the stems partition the strings up to StemLen + ext: no string is enumerated twice *)
 InvPartition == (Len(prog.stem) < StemLen) => prog.ext = 0
+(* every header the property names gets long values in every context, the key in every padding *)
+InvLongCovers ==
+  \A sd \in Sides : \A h \in (IF sd = "server" THEN ServerHeaders ELSE ClientHeaders) : \A cx \in CtxsOf(h) :
+     \E q \in LongProgs : q.side = sd /\ q.header = h /\ q.ctx = cx /\ Len(q.lens) > 0
 =============================================================================
